@@ -186,29 +186,95 @@ pub mod heap {
 
     pub struct Counting;
 
+    thread_local! {
+        /// While set, blocks with alignment <= 8 are handed out at an address that is 8 mod 16
+        /// (a legal placement that glibc's malloc never produces on x86-64, but 32-bit and some
+        /// embedded allocators do). Used by C20 to expose alignment assumptions in tagged
+        /// pointers.
+        static SHIFT: Cell<bool> = const { Cell::new(false) };
+    }
+
+    /// Blocks with alignment <= 16 carry a 16-byte header so that the payload can be placed at
+    /// base+16 (16-aligned, the usual case) or base+8 (8 mod 16). Which one a block uses is
+    /// read back from its address on free.
+    const HDR: usize = 16;
+
+    #[inline]
+    fn outer(l: Layout) -> Layout {
+        // (size + 16 cannot overflow for any layout jiff or the harness requests; a failure here
+        // would be a harness bug and aborts like any allocation failure)
+        Layout::from_size_align(l.size() + HDR, HDR).expect("layout")
+    }
+
+    #[inline]
+    fn count_alloc(size: usize) {
+        let _ = CUR.try_with(|c| {
+            c.set(c.get() + size as isize);
+            let _ = PEAK.try_with(|p| {
+                if c.get() > p.get() {
+                    p.set(c.get())
+                }
+            });
+        });
+        let _ = BLOCKS.try_with(|b| b.set(b.get() + 1));
+    }
+
     unsafe impl GlobalAlloc for Counting {
         unsafe fn alloc(&self, l: Layout) -> *mut u8 {
-            let p = System.alloc(l);
-            if !p.is_null() {
-                let _ = CUR.try_with(|c| {
-                    c.set(c.get() + l.size() as isize);
-                    let _ = PEAK.try_with(|p| {
-                        if c.get() > p.get() {
-                            p.set(c.get())
-                        }
-                    });
-                });
-                let _ = BLOCKS.try_with(|b| b.set(b.get() + 1));
+            if l.align() > HDR {
+                let p = System.alloc(l);
+                if !p.is_null() {
+                    count_alloc(l.size());
+                }
+                return p;
             }
-            p
+            let base = System.alloc(outer(l));
+            if base.is_null() {
+                return base;
+            }
+            count_alloc(l.size());
+            let shift = l.align() <= 8 && SHIFT.try_with(|s| s.get()).unwrap_or(false);
+            if shift {
+                base.add(8)
+            } else {
+                base.add(HDR)
+            }
         }
         unsafe fn dealloc(&self, p: *mut u8, l: Layout) {
-            System.dealloc(p, l);
+            if l.align() > HDR {
+                System.dealloc(p, l);
+            } else {
+                let base = if (p as usize) & 15 == 8 { p.sub(8) } else { p.sub(HDR) };
+                System.dealloc(base, outer(l));
+            }
             let _ = CUR.try_with(|c| c.set(c.get() - l.size() as isize));
             let _ = BLOCKS.try_with(|b| b.set(b.get() - 1));
         }
         unsafe fn realloc(&self, p: *mut u8, l: Layout, new: usize) -> *mut u8 {
-            let q = System.realloc(p, l, new);
+            let shifted = l.align() <= HDR && (p as usize) & 15 == 8;
+            let want_shift = l.align() <= 8 && SHIFT.try_with(|s| s.get()).unwrap_or(false);
+            let q = if l.align() > HDR {
+                System.realloc(p, l, new)
+            } else if !shifted && !want_shift {
+                let base = System.realloc(p.sub(HDR), outer(l), new + HDR);
+                if base.is_null() {
+                    base
+                } else {
+                    base.add(HDR)
+                }
+            } else {
+                // move between placements by hand
+                let nl = Layout::from_size_align_unchecked(new, l.align());
+                let base = System.alloc(outer(nl));
+                if base.is_null() {
+                    return base;
+                }
+                let q = if want_shift { base.add(8) } else { base.add(HDR) };
+                std::ptr::copy_nonoverlapping(p, q, l.size().min(new));
+                let old_base = if shifted { p.sub(8) } else { p.sub(HDR) };
+                System.dealloc(old_base, outer(l));
+                q
+            };
             if !q.is_null() {
                 let _ = CUR.try_with(|c| {
                     c.set(c.get() + new as isize - l.size() as isize);
@@ -221,6 +287,12 @@ pub mod heap {
             }
             q
         }
+    }
+
+    /// Place this thread's new small-alignment blocks at 8 mod 16 (true) or 0 mod 16 (false).
+    /// Returns the previous setting.
+    pub fn set_shift(on: bool) -> bool {
+        SHIFT.with(|s| s.replace(on))
     }
 
     /// (current bytes, live blocks) allocated by this thread so far (net)
